@@ -18,7 +18,8 @@ Translated from the source on every run (fail closed):
 pyrx.ClassTranslator is subclassed (pyrx itself is not modified); the extra constructs
 are: lambda, np.sum over a list comprehension on enumerate(self.particles), np.sum(x**n)
 over a field point, `.view(np.ndarray)`, `P.coefficients[:, k]` column slices,
-scipy.optimize.minimize_scalar(method="Bounded") / root_scalar(bracket=...) as oracles,
+scipy.optimize.minimize_scalar(method="Bounded") / root_scalar(bracket=, xtol=, rtol=) as
+oracles (the two tolerances are translated and handed to the oracle; self.errTol is a field),
 `while` loops (fuel-indexed Fixpoint, early `return` inside the loop), the numpy
 shape-dispatch epilogue `if r.shape == ...: return float(r[0])`.
 """
@@ -41,7 +42,8 @@ EOM_EXT = [
     Pattern("self.particles", "particles", "list particle"),
 ]
 EOM_ORACLES = [("minimize_bounded", "(R -> R) -> R -> R -> R"),
-               ("root_bracketed", "(R -> R) -> R -> R -> R")]
+               # f, bracket ends, xtol (absolute), rtol (relative)
+               ("root_bracketed", "(R -> R) -> R -> R -> R -> R -> R")]
 HYDRO_EXT = [
     Pattern("self.thermodynamics.wHighT(_0)", "wHighT", "R -> R"),
     Pattern("self.thermodynamics.pHighT(_0)", "pHighT", "R -> R"),
@@ -55,8 +57,9 @@ def _is_mod_call(node, mods, name):
 
 
 class PlasmaTranslator(pyrx.ClassTranslator):
-    def __init__(self, src, cls, externals, methods, prefix="", funcs=(), vtypes=None):
-        super().__init__(src, cls, [], externals, methods, state=False, prefix=prefix)
+    def __init__(self, src, cls, externals, methods, prefix="", funcs=(), vtypes=None,
+                 attrs=()):
+        super().__init__(src, cls, list(attrs), externals, methods, state=False, prefix=prefix)
         self.funcs = set(funcs)       # module-level functions translated without env
         self.vtypes = dict(vtypes or {})
         self.pending = []             # top-level Fixpoints to emit before the method
@@ -118,15 +121,14 @@ class PlasmaTranslator(pyrx.ClassTranslator):
             if len(c.args) != 1 or "bracket" not in kw or not isinstance(
                     kw["bracket"], (ast.Tuple, ast.List)) or len(kw["bracket"].elts) != 2:
                 raise TranslateError("root_scalar shape (line %d)" % node.lineno)
-            for k, v in kw.items():
-                if k == "bracket":
-                    continue
-                if k not in ("xtol", "rtol", "method", "maxiter"):
-                    raise TranslateError("root_scalar keyword %s" % k)
-                self.ignored.append("root_scalar %s=%s" % (k, ast.unparse(v)))
+            # the stopping tolerances are part of the model: they are handed to the oracle
+            if set(kw) != {"bracket", "xtol", "rtol"}:
+                raise TranslateError("root_scalar keywords %s (line %d): exactly bracket, "
+                                     "xtol, rtol are modelled" % (sorted(kw), node.lineno))
             a, b = kw["bracket"].elts
-            return "(root_bracketed e %s %s %s)" % (self.expr(c.args[0], env),
-                                                     self.expr(a, env), self.expr(b, env))
+            return "(root_bracketed e %s %s %s %s %s)" % (
+                self.expr(c.args[0], env), self.expr(a, env), self.expr(b, env),
+                self.expr(kw["xtol"], env), self.expr(kw["rtol"], env))
         if _is_mod_call(node, ("scipy.optimize", "optimize"), "minimize_scalar"):
             kw = {k.arg: k.value for k in node.keywords}
             if len(node.args) != 1 or set(kw) != {"method", "bounds"} or \
@@ -560,7 +562,7 @@ def generate(src_eom, src_helpers, src_hydro):
     spans["gammaSq"] = ("helpers.py",) + sp
     tr = PlasmaTranslator(src_eom, "EOM", EOM_EXT,
                           ["plasmaVelocity", "temperatureProfileEqLHS", "deltaToTmunu"],
-                          funcs=["gammaSq"], vtypes=TYPES)
+                          funcs=["gammaSq"], vtypes=TYPES, attrs=["errTol"])
     tr.ret_arity = {"deltaToTmunu": 2}
     defs = [tr.method("plasmaVelocity"), tr.method("temperatureProfileEqLHS"),
             tr.method("deltaToTmunu"), tr.method_opt("findPlasmaProfilePoint"),
